@@ -108,8 +108,8 @@ func (a *Acct) LabelN(l string, n int64) {
 // what ends up in the replay file.
 func (a *Acct) Violation(identity string, test string, detail any) {
 	a.mu.Lock()
-	defer a.mu.Unlock()
 	v := a.violations[identity]
+	first := v == nil
 	if v == nil {
 		v = &Violation{Identity: identity}
 		a.violations[identity] = v
@@ -117,6 +117,11 @@ func (a *Acct) Violation(identity string, test string, detail any) {
 	v.Count++
 	v.Detail = detail
 	v.Test = test
+	a.mu.Unlock()
+	if first {
+		// persist at once: the process may die before TestMain flushes
+		Flush()
+	}
 }
 
 // Excluded counts generator draws that were steered away from a listed known
